@@ -575,10 +575,27 @@ class _RClass(HostObject):
 
 
 # ndarray-flavoured methods on STensor (numpy spelling)
+INT_RANGE = {"uint8": (0, 2 ** 8 - 1), "int8": (-2 ** 7, 2 ** 7 - 1), "uint16": (0, 2 ** 16 - 1), "int16": (-2 ** 15, 2 ** 15 - 1),
+             "uint32": (0, 2 ** 32 - 1), "int32": (-2 ** 31, 2 ** 31 - 1), "uint64": (0, 2 ** 64 - 1), "int64": (-2 ** 63, 2 ** 63 - 1)}
+
+
 def _st_astype(self, dtype, **k):
     d = as_dtype(dtype)
     if d.name == self.dtype.name:
         return self.clone()
+    if d.name in INT_RANGE and self.dtype.name in INT_RANGE:
+        (lo_s, hi_s), (lo_d, hi_d) = INT_RANGE[self.dtype.name], INT_RANGE[d.name]
+        if lo_s < lo_d or hi_s > hi_d:
+            # the target integer type cannot hold every value of the source type: symbolic voxels (which range over the whole source
+            # type) wrap around; constants are converted when they fit
+            vals = []
+            for v in self.flat():
+                v = to_rat(v)
+                if v.is_const() and lo_d <= v.const_value() <= hi_d:
+                    vals.append(v)
+                else:
+                    vals.append(symt.sfunc(f"wrap_{d.name}", v))
+            return STensor.from_flat(vals, list(self.shape), d)
     if not d.is_floating_point and d.name != "bool" and self.dtype.is_floating_point:
         vals = []
         for v in self.flat():
